@@ -704,7 +704,11 @@ func TestC08(t *testing.T) {
 	seen := map[string]bool{}
 	ms := func(n int) time.Duration { return time.Duration(n) * time.Millisecond }
 	for _, R := range []int{1, 2} {
-		c, err := cluster.Start(cluster.Options{Replicas: R, Partitions: 7, Manual: true}, 3)
+		c, err := cluster.Start(cluster.Options{Replicas: R, Partitions: 7, Manual: true,
+			DMaps: func(d *config.DMaps) {
+				// a DMap whose entries live 120 ms unless they say otherwise: a lock taken WITH a timeout says otherwise
+				d.Custom = map[string]config.DMap{"c08ttl": {TTLDuration: 120 * time.Millisecond}}
+			}}, 3)
 		if err != nil {
 			t.Fatal(err)
 		}
@@ -770,6 +774,32 @@ func TestC08(t *testing.T) {
 			}
 			rec.Run("c08", scripts, nil)
 			record(w, rec, &seq, sum, seen, trace.Ev{"cfg": cfg}, func(h *History) bool { return h.Overlap })
+		}
+		// Locks with a timeout on a DMap that has a (shorter) default time-to-live: "a lock taken with a timeout is released
+		// automatically no earlier than that timeout" - the holder unlocks at 300 ms, a competitor that tries from 170 ms to
+		// 270 ms does not get it, a late comer does
+		for b := 0; b < envInt("VERIF_C08_TTLDMAP", 2); b++ {
+			rec := NewRecorder()
+			var scripts []Script
+			for s := 0; s < 5; s++ {
+				key := fmt.Sprintf("lt%d-%d-%d", R, b, s)
+				tau := ms([]int{500, 700}[rng.Intn(2)])
+				for ci, plan := range [][]Step{
+					{{Op: "lock", Key: key, D: tau, Deadline: ms(100)}, {Op: "sleep", D: ms(300)}, {Op: "unlock", Key: key}},
+					{{Op: "lock", Key: key, D: tau, Deadline: ms(100), At: ms(170)}, {Op: "sleep", D: ms(20)}, {Op: "unlock", Key: key}},
+					{{Op: "lock", Key: key, D: ms(100), Deadline: ms(1200), At: ms(800)}, {Op: "unlock", Key: key}},
+				} {
+					p := paths[rng.Intn(len(paths))]
+					if _, ok := p.(*pipePath); ok {
+						p = paths[0]
+					}
+					sum.Paths[p.Name()]++
+					scripts = append(scripts, Script{Client: fmt.Sprintf("t%d.%d", s, ci), Path: p, Steps: plan})
+					sum.Evaluations += len(plan)
+				}
+			}
+			rec.Run("c08ttl", scripts, nil)
+			record(w, rec, &seq, sum, seen, trace.Ev{"cfg": cfg + ", DMap with a default time-to-live of 120 ms"}, func(h *History) bool { return h.Overlap })
 		}
 		// Simultaneous lockers: a handful of Lock calls on a fresh key released at the same instant; exactly one may get the
 		// lock (the others fail at their deadline), and only its token unlocks
